@@ -134,6 +134,11 @@ pub struct SimConfig {
     pub stdin_buf: usize,
     /// explicit schedule to follow before falling back to `strategy`
     pub schedule: Vec<u32>,
+    /// number of runtime worker threads available to tasks created with `tokio::spawn`
+    /// (None = unlimited). A task keeps its worker while it runs *and while it blocks in
+    /// synchronous pipe I/O*; it gives it up while it awaits a join, sleeps or has finished.
+    #[serde(default)]
+    pub workers: Option<usize>,
 }
 
 impl Default for SimConfig {
@@ -149,6 +154,7 @@ impl Default for SimConfig {
             stdin_chunks: vec![],
             stdin_buf: 8192,
             schedule: vec![],
+            workers: None,
         }
     }
 }
@@ -179,6 +185,8 @@ pub struct Part {
     pub epipe_run: u32,
     pub epipe_total: u32,
     pub ops: u64,
+    /// holds a runtime worker (only meaningful for `async` participants)
+    pub has_worker: bool,
 }
 
 #[derive(Debug)]
@@ -213,7 +221,7 @@ pub struct Event {
 
 #[derive(Clone, Debug, Serialize, Deserialize, PartialEq)]
 pub enum Abort {
-    Deadlock { detail: String, self_owned: bool, main_done: bool },
+    Deadlock { detail: String, self_owned: bool, main_done: bool, #[serde(default)] worker_starved: bool },
     Budget { detail: String, epipe_spin: bool },
     Panic { detail: String },
 }
@@ -401,9 +409,24 @@ impl World {
             return;
         }
         loop {
+            // worker model: an `async` task holds a worker from the moment it runs until it
+            // awaits a join / sleeps / finishes
+            for p in &mut self.parts {
+                if p.has_worker && matches!(p.state, St::BlockedJoin(_) | St::Sleeping(_) | St::WaitAll | St::Finished) {
+                    p.has_worker = false;
+                }
+            }
+            let free = match self.cfg.workers {
+                None => usize::MAX,
+                Some(w) => w.saturating_sub(self.parts.iter().filter(|p| p.has_worker).count()),
+            };
             let mut runnable: Vec<usize> = (0..self.parts.len())
                 .filter(|&i| self.is_runnable(&self.parts[i].state))
+                .filter(|&i| self.parts[i].kind != "async" || self.parts[i].has_worker || free > 0)
                 .collect();
+            let starved = self.cfg.workers.is_some()
+                && runnable.is_empty()
+                && (0..self.parts.len()).any(|i| self.is_runnable(&self.parts[i].state) && self.parts[i].kind == "async" && !self.parts[i].has_worker);
             let sleepers: Option<u64> = self
                 .parts
                 .iter()
@@ -429,7 +452,7 @@ impl World {
                         false
                     }
                 });
-                self.abort = Some(Abort::Deadlock { detail: self.describe(), self_owned, main_done: self.main_done });
+                self.abort = Some(Abort::Deadlock { detail: self.describe(), self_owned, main_done: self.main_done, worker_starved: starved });
                 self.current = None;
                 return;
             }
@@ -457,6 +480,9 @@ impl World {
             } else {
                 self.choose(me, &runnable)
             };
+            if self.cfg.workers.is_some() && self.parts[next].kind == "async" {
+                self.parts[next].has_worker = true;
+            }
             self.recorded.push(next as u32);
             self.current = Some(next);
             return;
@@ -561,7 +587,7 @@ pub fn begin_run(cfg: SimConfig, stdin: Vec<u8>) {
     w.stdin_data = stdin;
     w.active = true;
     let prio = w.rng.next() >> 8;
-    w.parts.push(Part { state: St::Running, kind: "main", spawner: 0, prio, epipe_run: 0, epipe_total: 0, ops: 0 });
+    w.parts.push(Part { state: St::Running, kind: "main", spawner: 0, prio, epipe_run: 0, epipe_total: 0, ops: 0, has_worker: false });
     w.current = Some(0);
     *g = Some(w);
     drop(g);
@@ -655,7 +681,7 @@ pub fn task_spawn(kind: &'static str) -> u64 {
     let w = g.as_mut().unwrap();
     let prio = w.rng.next() >> 8;
     let id = w.parts.len();
-    w.parts.push(Part { state: St::Runnable, kind, spawner: me, prio, epipe_run: 0, epipe_total: 0, ops: 0 });
+    w.parts.push(Part { state: St::Runnable, kind, spawner: me, prio, epipe_run: 0, epipe_total: 0, ops: 0, has_worker: false });
     w.pending_threads += 1;
     w.event(me, EventKind::Spawn { child: id, kind: kind.to_string() });
     id as u64
